@@ -9,28 +9,28 @@ CLAIMED = {
          "Seeded exploration: every block of every run is recomputed by 2-4 replicas whose node-local conditions are owned by the simulator (Go map order through a runtime seam, time.Local, skewed virtual clock, restart and rollback histories).", LEDGER_NOTE, "3 C01"),
  "C02": ("exploration", "deterministic simulation: seeded multi-replica ledger runs, adversarial mempool, honest proposal must validate+insert on every same-head replica",
          "Seeded exploration of simulated multi-replica ledger histories with the real ProposeBlock/ValidateBlock/AddBlock on every replica; a clean batch is evidence, not proof.", LEDGER_NOTE, "3 C02"),
- "C03": ("exploration", "deterministic simulation with a Byzantine peer: 29 tamper operators on every valid block of seeded ledger runs, delivered through real decode+AddBlock; before/after digests incl. simulated-disk unit counter",
+ "C03": ("exploration", "deterministic simulation with a Byzantine peer: 29 tamper operators on every valid block of seeded ledger runs (with contract transactions, so that receipts exist), plus whole blocks built by replicas that are not eligible to propose with their own key; delivered through real decode+AddBlock; before/after digests incl. simulated-disk unit counter",
          "Seeded exploration: tens of thousands of tampered copies per minute, each of a block that is valid in its context; rejection and side-effect freedom are both checked, and the honest original must still insert.", LEDGER_NOTE, "3 C03"),
  "C04": ("exploration", "deterministic simulation: full ledger scan after every committed block + per-transaction re-application on a private state, bound from configuration",
          "Seeded exploration of ledger histories incl. epoch transitions with drawn outcomes; conservation is checked as an invariant after every block, not only at the end.", LEDGER_NOTE, "3 C04"),
  "C05": ("exploration", "deterministic simulation: per-transaction per-address (balance, stake) deltas against pre-state relationships",
          "Seeded exploration; each transaction of each accepted block is applied alone with the real applyTxOnState and its effect on every known address is compared with the signer and the named exceptions.", LEDGER_NOTE, "3 C05"),
- "C06": ("exploration", "deterministic simulation: replayer client, Byzantine block with replayed tx, rollbacks; history check of the canonical chain of every replica",
+ "C06": ("exploration", "deterministic simulation: replayer client, Byzantine block with replayed tx, proposer with a hostile candidate list (already included, future-epoch, past-epoch, used-nonce and gapped transactions offered to the node's own block builder, derived from the current ProposeBlock source), rollbacks; history check of the canonical chain of every replica",
          "Seeded exploration across 1-3 epochs; the canonical chain read back from each replica's store is checked for duplicate hashes, nonce sequence per (sender, epoch) and epoch match.", LEDGER_NOTE, "3 C06"),
  "C07": ("exploration", "deterministic simulation: tape-drawn validator sets on replicas with different map seeds (incremental vs loaded view), real Engine.vote/countVotes on the virtual clock over a lossy/duplicating transport with a Byzantine voter; real ValidateBlockCert vs an independent reference predicate",
          "Seeded exploration of validator sets, rounds/steps and vote multisets; thousands of rounds per minute.", "Committee membership is taken from the implementation's draw (checked by cross-replica equality); the engine loop and gossip are stubbed; validator sets are installed directly in the identity state.", "3 C07"),
  "C08": ("exploration", "deterministic simulation: partition/heal with two certified branches, Byzantine rewriting of certificates and bundles on the wire, real fork resolver; adoption judged by reference certificate predicate and post-adoption equality with the peer",
          "Seeded exploration of partitions; the converse (every valid heavier fork is adopted) is deliberately not demanded.", LEDGER_NOTE + " Downloader.SeekForkedBlocks is replaced by the harness moving BlocksRange bytes and fetching bodies.", "3 C08"),
- "C09": ("fault_enumeration", "deterministic simulation with crash injection: every storage unit of recorded operations is a crash point; restart + catch-up vs uncrashed twin",
+ "C09": ("fault_enumeration", "deterministic simulation with crash injection: every storage unit of recorded operations (block insertion, reset + re-application, whole fast sync incl. header intake) is a crash point; restart + catch-up vs uncrashed twin; for fast-sync crash points also: resume the fast sync, finish, restart again",
          "For each recorded operation the crash points are enumerated completely (every atomic storage unit); which scenarios and operations are recorded is seeded sampling. Second-order crashes are sampled.",
          "The store is modelled as prefix-durable over atomic units (put/delete/batch); LevelDB itself is not exercised. " + LEDGER_NOTE, "3 C09"),
- "C11": ("exploration", "deterministic simulation: stored-diff replay on every replica and height (with rollbacks); late joiner running the real fastSync steps on wire bytes against a Byzantine provider that corrupts the snapshot archive, diffs and certificates",
+ "C11": ("exploration", "deterministic simulation: stored-diff replay on every replica and height (with rollbacks); late joiner running the real fastSync steps on wire bytes against a Byzantine provider that corrupts the snapshot archive (positions proportional to its length; some runs over 5000-10000 accounts so that archives have several blocks), diffs and certificates",
          "Seeded exploration: each run ends with a fast sync of a fresh node from a peer of the run; refused imports are checked for emptiness of the target key range, accepted ones for exact root, contents and key lookups, and the joiner must then follow the chain.", LEDGER_NOTE + " The fast-sync batch loop/peer selection and kubo's CID verification are stubbed.", "3 C11"),
- "C13": ("exploration", "deterministic simulation: op-by-op comparison of the real copy-on-write store with a reference map; in-run canonical-state and disk-unit invariance around speculative work; historical reads vs commit-time records under restarts/rollbacks",
+ "C13": ("exploration", "deterministic simulation: op-by-op comparison of the real copy-on-write store with a reference map (incl. batches left open or discarded); in-run canonical-state and disk-unit invariance around speculative work and read-only RPC queries (real api.BlockchainApi.EstimateRawTx); historical reads vs commit-time records under restarts/rollbacks",
          "Seeded exploration of operation sequences on the component and of ledger histories for the in-run clauses.", LEDGER_NOTE, "3 C13"),
  "C10": ("exploration", "deterministic simulation: live validator view vs fresh Load() after every block on every replica, plus restart/rollback rebuilds; registry vs ledger scan",
          "Seeded exploration of identity-changing histories; comparison covers every public getter incl. committee draws and ordered pool members.", LEDGER_NOTE, "3 C10"),
- "C14": ("exploration", "deterministic simulation: 5-8 tasks (clients, engine, sync toggler, queries) over one real TxPool + chain under a baton scheduler; every cooperative lock acquisition is a tape-decided scheduling point; candidate-list, retention and removal invariants; deadlock detection",
+ "C14": ("exploration", "deterministic simulation: 5-10 tasks (clients, engine, sync toggler, queries, submitters made runnable exactly when a block is inserted) over one real TxPool + chain under a baton scheduler, a second node of the same operator building some blocks from same-nonce variants; every cooperative lock acquisition is a tape-decided scheduling point; candidate-list, retention and removal invariants; dead-lock of the tasks is a violation",
          "Seeded search over interleavings at lock granularity with exact replay; the data-race clause of the property is NOT decided by this technique (stated in DESIGN 3 C14 L).", "tx keeper persistence off; push tracker loops of the pool not started; candidate lists are taken by the block-inserting task, as the engine does.", "3 C14"),
  "C15": ("exploration", "deterministic simulation: contract-heavy client (5 embedded contracts x 2 generations, 5 bundled WASM contracts, arbitrary methods/arguments/gas), per-transaction application with one real VM per block; receipt vs effect on all balances, stakes, contract stakes and buffered store writes; burns from the environment's own reports",
          "Seeded exploration of programs/inputs in simulated block contexts; the simulation contributes state and block-context variety and the proposer/validator agreement for these blocks.", LEDGER_NOTE, "3 C15"),
